@@ -71,7 +71,7 @@ ASSUMPTIONS = [
     "rollback points are values previously returned by changes_count() (what restriction code passes)",
     "USE set 'as it was' is observed through the public `use` attribute",
 ]
-BUDGET = {"quick": 50, "thorough": 900}
+BUDGET = {"quick": 50, "thorough": 800}
 
 IUSE_FLAGS = ["a", "b", "c", "d"]
 EXTRA_FLAGS = ["x", "y"]
@@ -536,14 +536,20 @@ def _edit(tree, path, how):
 def plan(tier, seed):
     if tier == "quick":
         return [{"task": "hist", "examples": 600} for _ in range(16)]
-    return [{"task": "hist", "examples": 40000} for _ in range(16)]
+    return [{"task": "hist", "examples": 15000} for _ in range(16)]
 
 
 def run_task(ctx, task, **kw):
     if task != "hist":
         raise core.HarnessError(f"unknown task {task}")
     env = Env()
-    core.hyp_run(ctx, case_strategy(), lambda c: run_history(ctx, env, c), kw["examples"], chunk=300)
+    chunk = 100 if ctx.tier == "quick" else 1000
+    # the first chunk always runs (a slow start on a loaded machine must not make the run vacuous);
+    # the wall-clock guard applies to everything after it
+    deadline, ctx.deadline = ctx.deadline, None
+    done = core.hyp_run(ctx, case_strategy(), lambda c: run_history(ctx, env, c), min(chunk, kw["examples"]), chunk=chunk, seed_salt=7)
+    ctx.deadline = deadline
+    core.hyp_run(ctx, case_strategy(), lambda c: run_history(ctx, env, c), kw["examples"] - done, chunk=chunk)
 
 
 def replay(ctx, case):
